@@ -102,7 +102,7 @@ with reset (fuel : nat) (s : mst) : mst * list delivery :=
       let '(s3, d) := if spa s2 then                                                    (* spa.disconnect() raises RUNNING_SPA_DISCONNECTED *)
                         let '(x, d) := handle f s2 RUNNING_SPA_DISCONNECTED in (upd_objs x (fac x) false (desc x), d)
                       else (s2, []) in
-      let s4 := upd_objs s3 false (spa s3) (desc s3) in
+      let s4 := upd_objs s3 false (spa s3) (if reset_clears_descriptors_last then false else desc s3) in
       (upd_st s4 IDLE, d)
   end.
 Definition FUEL : nat := 8.
